@@ -74,6 +74,8 @@ ALL = [
     H('drop_wipes_exporter_sha256', ['C16']),
     H('drop_wipes_exporter_sha384', ['C16'], tier='thorough'),
     H('drop_wipes_exporter_sha512', ['C16'], tier='thorough'),
+    H('single_shot_open_equiv_model', ['C14'], tier='thorough', timeout=1500),
+    H('single_shot_seal_equiv_model', ['C14'], tier='thorough', timeout=1500),
     H('gen_keypair_depends_only_on_rng', ['C18', 'C03', 'C02']),
     H('aead_ids_and_sizes_table', ['C02', 'C12']),
     H('x25519_dh_zero_check', ['C10', 'C03']),
@@ -95,6 +97,8 @@ TWINS = {
     'seal_in_place_detached': 'seal_state_machine_model',
     'open_in_place_detached': 'open_state_machine_model',
     'gen_keypair': 'gen_keypair_depends_only_on_rng',
+    'single_shot_open_in_place_detached': 'single_shot_open_equiv_model',
+    'single_shot_seal_in_place_detached': 'single_shot_seal_equiv_model',
     'encap_with_eph': 'x25519_dhkem_kdf_inputs',
     'decap_body': 'x25519_dhkem_kdf_inputs',
     'full_suite_id': 'suite_ids_table_x25519',
